@@ -13,11 +13,21 @@ pub async fn save_dict(path: impl AsRef<Path>, dict: impl Dictionary) -> Result<
         fs::create_dir_all(parent).await?;
     }
 
-    let file = File::create(path.as_ref()).await?;
+    // Write to a temporary file next to the destination and move it into place
+    // afterwards, so that dying mid-write cannot destroy the existing dictionary.
+    let mut tmp_path = path.as_ref().as_os_str().to_owned();
+    tmp_path.push(".tmp");
+    let tmp_path = PathBuf::from(tmp_path);
+
+    let file = File::create(&tmp_path).await?;
     let mut write = BufWriter::new(file);
 
     write_word_list(dict, &mut write).await?;
     write.flush().await?;
+    write.get_ref().sync_all().await?;
+    drop(write);
+
+    fs::rename(&tmp_path, path.as_ref()).await?;
 
     Ok(())
 }
